@@ -154,9 +154,38 @@ def require_scalar_fragment(w: Walker, what: str) -> None:
     whole-array selections (flatnonzero of a mask, argsort, argmin, searchsorted, ...) is outside that fragment: its
     loops range over computed index sets whose contents no rule here can bound, so nothing is decided (exit 2) instead
     of reading a shape rule's mismatch as a defect."""
-    hits = sorted({e.name for e in w.events if e.kind == "call" and e.name in VECTOR_SELECTORS})
-    hits += sorted({"." + e.target[2] for e in w.events if e.kind == "call" and e.target is not None
-                    and e.target[0] == "attr" and e.target[2] in ("argsort", "argmin", "argmax", "nonzero", "searchsorted")})
+    from .ir import is_log_call, subterms as _subt
+
+    def diagnostic_only(h) -> bool:
+        """The selection feeds nothing but log lines, warnings and argument checks that raise."""
+        v = h.value
+        if v is None:
+            return False
+        for li in w.loops.values():
+            if li.domain is not None and any(u == v for u in _subt(li.domain)):
+                return False
+            if li.cond is not None and any(u == v for u in _subt(li.cond)):
+                return False
+        for e in w.events:
+            if e is h:
+                continue
+            tops = [x for x in (e.target, e.value) if x is not None] + list(e.args or ()) + [x for _, x in (e.kwargs or ())]
+            direct = any(u == v for top in tops for u in _subt(top))
+            guarded = any(u == v for g, _ in e.guards for u in _subt(g))
+            if not direct and not guarded:
+                continue
+            harmless = is_log_call(e) or e.kind in ("raise", "bind") or (e.kind == "call" and (e.name or "").startswith("warnings.")) \
+                or (e.kind == "call" and e.target is not None and e.target[0] == "mod" and e.target[1].startswith(("numpy.", "builtin")))
+            if e.kind == "call" and e.name in ("builtin.len", "builtin.int", "builtin.float", "builtin.str", "tolist", "item"):
+                harmless = True
+            if not harmless:
+                return False
+        return True
+    sel_events = [e for e in w.events if e.kind == "call" and (e.name in VECTOR_SELECTORS or (
+        e.target is not None and e.target[0] == "attr" and e.target[2] in ("argsort", "argmin", "argmax", "nonzero", "searchsorted")))]
+    sel_events = [e for e in sel_events if not diagnostic_only(e)]
+    hits = sorted({e.name for e in sel_events if e.name in VECTOR_SELECTORS})
+    hits += sorted({"." + e.target[2] for e in sel_events if e.name not in VECTOR_SELECTORS})
     if hits:
         raise AnalysisError(f"{what}: nodes are selected with whole-array operations ({', '.join(hits)}); the rules "
                             "cover scalar loops over the nodes only - this form is outside the analysable fragment")
@@ -226,6 +255,9 @@ def check_model_premises(rep: Rep, repo: Repo, pre: str = "PREMISE-", node_field
     check_constants(rep, repo, pre)
     check_node_defaults(rep, repo, pre, fields=node_fields)
     check_mutable_defaults(rep, repo, pre)
+    from .rules_premise import check_decorators, check_model_state_untouched
+    check_decorators(rep, repo, pre)
+    check_model_state_untouched(rep, repo, pre)
     if purity:
         check_metric_purity(rep, repo, pre)
 
